@@ -256,12 +256,21 @@ func (x *Exec) returnAsserts(fr *Frame, st *State, ret *ssa.Return) {
 		return
 	}
 	n := len(ret.Results)
+	success := TTrue
 	if n > 0 {
 		last := ret.Results[n-1]
 		if types.Identical(last.Type(), types.Universe.Lookup("error").Type()) {
-			c, ok := last.(*ssa.Const)
-			if !ok || !c.IsNil() {
-				return
+			if c, ok := last.(*ssa.Const); ok {
+				if !c.IsNil() {
+					return
+				}
+			} else {
+				// (functions with defers return their results through temporaries)
+				lv := x.get(fr, st, last)
+				if lv.K != KIface || lv.X == nil {
+					return
+				}
+				success = Eq(lv.X, nilRef)
 			}
 		}
 	}
@@ -280,12 +289,12 @@ func (x *Exec) returnAsserts(fr *Frame, st *State, ret *ssa.Return) {
 		if cs.IsReach {
 			env.goal = false
 			g := env.evalBool(cs.Clause.Expr)
-			x.vc.obls = append(x.vc.obls, &Obl{Name: x.vc.fnName + "#callsite." + tag + ".reach", Kind: "cover", Goal: Not(And(st.Reach, g)), N: len(x.vc.items),
+			x.vc.obls = append(x.vc.obls, &Obl{Name: x.vc.fnName + "#callsite." + tag + ".reach", Kind: "cover", Goal: Not(And(st.Reach, success, g)), N: len(x.vc.items),
 				Desc: "a successful return is reachable with: " + cs.Clause.Src, Fn: x.vc.fnName, VC: x.vc, Expect: "sat", Pos: x.posOf(fr.fn, ret.Pos()), Clause: cs.Clause.Src})
 			continue
 		}
 		g := env.evalBool(cs.Clause.Expr)
-		o := x.vc.oblige("callsite."+tag, Implies(st.Reach, g), x.posOf(fr.fn, ret.Pos()), fmt.Sprintf("at a successful return: %s", cs.Clause.Src))
+		o := x.vc.oblige("callsite."+tag, Implies(And(st.Reach, success), g), x.posOf(fr.fn, ret.Pos()), fmt.Sprintf("at a successful return: %s", cs.Clause.Src))
 		o.Clause = cs.Clause.Src
 	}
 }
